@@ -44,6 +44,7 @@ func genEnv(r *vlib.PRNG) envConfig {
 	// instruction memory: mostly quick (every taken branch refetches)
 	e.Inst = profile(r, []string{"fast", "fast", "medium", "spiky", "slow"}[r.Intn(5)])
 	e.Scalar = profile(r, kinds[r.Intn(len(kinds))])
+	e.Scalar.SplitSkew = r.Intn(3)
 	e.Vector = profile(r, kinds[r.Intn(len(kinds))])
 	e.Disp = dispConfig{GapMax: []int{0, 0, 5, 200, 1500}[r.Intn(5)], StallPct: []int{0, 0, 50, 90}[r.Intn(4)], InBuf: []int{1, 4}[r.Intn(2)]}
 	return e
@@ -73,7 +74,7 @@ func genKernel(r *vlib.PRNG, slowInst bool) kernelSpec {
 			n := 1 + r.Intn(4)
 			ph = phase{Kind: "loadwait", N: n, K: r.Intn(min(n, 3))}
 		case 2:
-			ph = phase{Kind: "sload", N: 1 + r.Intn(4)}
+			ph = phase{Kind: "sload", Loads: genSLoads(r)}
 		case 3, 4:
 			mask := []int{1, 3, 7, 15}[r.Intn(4)]
 			per := r.Intn(delayBudget/mask + 1)
@@ -87,6 +88,7 @@ func genKernel(r *vlib.PRNG, slowInst bool) kernelSpec {
 		}
 		k.Phases = append(k.Phases, ph)
 	}
+	k.TailSLoad = r.Chance(1, 4)
 	if r.Chance(1, 5) { // early exit of some wavefronts at a random point
 		at := r.Intn(len(k.Phases) + 1)
 		ex := phase{Kind: "exit", Mask: exitMask(r, k.W), Store: r.Chance(3, 4)}
@@ -96,6 +98,29 @@ func genKernel(r *vlib.PRNG, slowInst bool) kernelSpec {
 		k.Phases = append(k.Phases, phase{Kind: "ldsx", N: 1 + r.Intn(3), Loop: r.Bool(), Delta: neighbourDelta(r, k.W)})
 	}
 	return k
+}
+
+// genSLoads: 1-3 scalar loads of 1..8 dwords; about half of the multi-dword
+// ones cross a 64-byte line of the wavefront's 256-byte slice (the scalar unit
+// then splits them into two memory requests), the others are naturally aligned.
+func genSLoads(r *vlib.PRNG) []sload {
+	n := 1 + r.Intn(3)
+	var out []sload
+	for i := 0; i < n; i++ {
+		w := []int{1, 2, 2, 4, 4, 8, 8}[r.Intn(7)]
+		if w > sloadCap[i] {
+			w = sloadCap[i]
+		}
+		var off int
+		if w > 1 && r.Chance(3, 5) {
+			line := 64 * (1 + r.Intn(3))
+			off = line - 4*(1+r.Intn(w-1)) // 1..w-1 dwords before the line
+		} else {
+			off = 4 * w * r.Intn(tSliceDwords/w)
+		}
+		out = append(out, sload{W: w, Off: off})
+	}
+	return out
 }
 
 func neighbourDelta(r *vlib.PRNG, w int) int {
@@ -179,6 +204,28 @@ func canonical() []scenario {
 		envConfig{ROB: true, Inst: fast, Scalar: fast, Seed: 15,
 			Vector: memProfile{Name: "wide", LatLo: 1, LatHi: 2000, InBuf: 4, OutBuf: 4, Reorder: true}})
 	add("canon-scalar-loads-lgkmcnt-0", k(3, 2, phase{Kind: "sload", N: 3}, phase{Kind: "sload", N: 1}), quiet(false, fast, slowS))
+	// scalar loads that cross a 64-byte line are split into two requests whose
+	// responses return far apart; later scalar loads must still be waited for,
+	// and s_endpgm is issued with a split load outstanding
+	for v := 0; v < 3; v++ {
+		skew := []int{1, 1, 2}[v]
+		ss := plainProfile("fast", 2, 6)
+		ss.SplitSkew = skew
+		kk := k([]int{1, 2, 3}[v], []int{1, 1, 2}[v],
+			phase{Kind: "delay", Base: 1, Per: 90, Mask: 1},
+			phase{Kind: "sload", Loads: []sload{{W: 8, Off: 40}}},
+			phase{Kind: "sload", Loads: []sload{{W: 4, Off: 56}}},
+			phase{Kind: "sload", Loads: []sload{{W: 4, Off: 16}}},
+			phase{Kind: "sload", Loads: []sload{{W: 2, Off: 124}}},
+			phase{Kind: "sload", Loads: []sload{{W: 8, Off: 164}, {W: 1, Off: 0}}},
+			phase{Kind: "loadwait", N: 2, K: 1},
+			phase{Kind: "sload", Loads: []sload{{W: 2, Off: 188}, {W: 4, Off: 64}, {W: 4, Off: 120}}},
+			lds(1, false, 64))
+		kk.TailSLoad = true
+		e := quiet(skew == 2, fast, ss)
+		e.ROB = v != 1
+		add(fmt.Sprintf("canon-scalar-loads-straddling-cache-lines-%d-skew-%d", v, skew), kk, e)
+	}
 	// LDS ring with staggered arrival, unrolled and looped
 	add("canon-lds-ring-16-waves-staggered", k(16, 1, phase{Kind: "delay", Base: 1, Per: 5, Mask: 15}, lds(4, false, 64),
 		phase{Kind: "delay", Base: 1, Per: 7, Rot: 5, Mask: 7}, lds(3, true, 64+17)), quiet(true, fast, fast))
